@@ -37,7 +37,10 @@ def load():
             line = line.strip()
             if line:
                 out.append(json.loads(line))
-    return out
+    # development aid: PDT_KF_IGNORE=KF-11,KF-13 runs a check as if these entries were not listed (to see whether a
+    # known finding still reproduces, e.g. against a scratch copy with a candidate repair)
+    ign = set(filter(None, os.environ.get("PDT_KF_IGNORE", "").split(",")))
+    return [e for e in out if e.get("id") not in ign]
 
 
 # ---------------------------------------------------------------------------------------------
